@@ -40,6 +40,11 @@ R = Rules(
         "method of proxy/server.py is evaluated (through the analysed Message.copy) with an upstream answer of every "
         "type, and the message type its result carries is fed as preset type into the analysed send_message -- what "
         "reaches the wire must be legal for this hop whichever of the two sites resets the upstream type.  "
+        "Exactly-once acknowledgement across receptions: dispatch_message (with the analysed duplicate filter and the "
+        "analysed _process_request, on the tables the first reception leaves behind) receives the same request one to "
+        "three times while the handler is busy, then the empty-ACK timers still running fire: all ACKs under the "
+        "request's message ID together must be one for CON and none for NON, and whatever acknowledges on reception "
+        "must have retired the open opportunity.  "
         "The 0.1 s race between handler completion and the empty-ACK timer is not decided."
     ),
     rule_text="exhaustive finite-domain evaluation of the dispatchers in the checker's own evaluator against a reference decision table; scenario evaluation of the bookkeeping (final-state and effect comparison)",
@@ -1203,6 +1208,97 @@ def k_forwarded(ctx):
     ctx.floor("forwarded-response scenarios", n, 9)
 
 
+# -- exactly one acknowledgement per request, however often it is received -------------------------------------------
+
+def retransmission_scenario(ctx, mtype, copies, mid_value=None):
+    """The same request is received `copies` times (dispatch_message with the analysed duplicate filter and the
+    analysed _process_request: the tables of recent messages and of open opportunities are whatever the first
+    reception leaves behind, no key shape is assumed) while the handler is still busy; then the empty-ACK timers
+    that are still running fire.  -> dict of observations"""
+    prog = ctx.prog
+    cls = prog.cls(MMCLS)
+    fi = prog.func(MM + "dispatch_message")
+    remote = _remote("message.remote")
+    mid = Obj("obj", "message.mid") if mid_value is None else mid_value
+    tuning = Obj("obj", "message.transport_tuning", lazy=True)
+    msg = Obj("obj", "message", lazy=True, attrs={"mtype": Sym(mtype), "code": 1, "mid": mid, "token": Obj("obj", "message.token"), "remote": remote, "transport_tuning": tuning})
+
+    def stub_send(m, args, kwargs, node):
+        a = _argmap(m, "_send_initially", args, kwargs)
+        m.effect("sent", a[0])
+
+    pb = new_dict(tag="_piggyback_opportunities")
+    s = _self_obj(pb, None, new_dict(tag="_active_exchanges"))
+    # every table the constructor creates empty starts empty (the duplicate filter's among them, under whatever name)
+    init = prog.lookup_method(cls.qn, "__init__")
+    for st in (ast.walk(init.node) if init is not None else ()):
+        if isinstance(st, (ast.Assign, ast.AnnAssign)) and st.value is not None:
+            v = st.value
+            empty = (isinstance(v, ast.Dict) and not v.keys) or (isinstance(v, ast.Call) and isinstance(v.func, ast.Name) and v.func.id == "dict" and not v.args and not v.keywords)
+            for t in (st.targets if isinstance(st, ast.Assign) else [st.target]):
+                if empty and isinstance(t, ast.Attribute) and isinstance(t.value, ast.Name) and t.value.id == "self" and t.attr not in s.attrs:
+                    s.attrs[t.attr] = new_dict(tag=t.attr)
+    s.attrs.setdefault("_recent_messages", new_dict(tag="_recent_messages"))
+    m = Machine(prog, cls, s, CONSTS, _preds(ctx), {"_send_initially": stub_send, "_next_message_id": lambda m_, a_, k_, n_: Obj("obj", "fresh-mid")})
+    o = {"machine": m, "fi": fi, "msg": msg, "pb": pb, "outcomes": [], "marks": []}
+    for i in range(copies):
+        o["outcomes"].append(m.run(fi, [m.self_obj, msg]))
+        o["marks"].append(len(m.trace))
+    delay = m.getattr(tuning, "EMPTY_ACK_DELAY")
+    # the timers that stand for an acknowledgement: armed with EMPTY_ACK_DELAY, or referred to from the table of
+    # opportunities (the expiry of the duplicate filter, armed with EXCHANGE_LIFETIME, is far beyond the scenario)
+    in_table = []
+    for v in pb.data.values():
+        in_table.extend(x for x in (v if isinstance(v, tuple) else (v,)) if isinstance(x, Obj) and x.kind == "handle")
+    o["left_open"] = len(pb.data)
+    o["fired"] = []
+    for t in [t for t in m.trace if t[0] == "call_later"]:
+        _, handle, dl, cb, rest = t
+        if handle.attrs.get("cancelled") or not (dl is delay or any(handle is h for h in in_table)):
+            continue
+        o["fired"].append(m.invoke(cb, rest, what="empty-ACK timer callback"))
+
+    def is_ack_of_request(x):
+        if not isinstance(x, Obj):
+            return False
+        mt = x.attrs.get("mtype")
+        return isinstance(mt, Sym) and mt == "ACK" and _same(x.attrs.get("mid"), mid)
+    sent = [(i, t[1]) for i, t in enumerate(m.trace) if t[0] == "sent"]
+    o["acks"] = [(i, x) for i, x in sent if is_ack_of_request(x)]
+    o["acks_on_reception"] = [x for i, x in o["acks"] if i < o["marks"][-1]]
+    return o
+
+
+@R.clause("C10.l", "a request that is received more than once while its response is being prepared is still acknowledged exactly once (CON) resp. never (NON): whatever acknowledges it on reception retires the open opportunity and its timer")
+def l_retransmission(ctx):
+    fi = ctx.prog.func(MM + "dispatch_message")
+    n = 0
+    for mtype, copies, mid_value in itertools.product(("CON", "NON"), (1, 2, 3), (None, 0)):
+        o = retransmission_scenario(ctx, mtype, copies, mid_value)
+        n += 1
+        world = "%s request%s received %d time(s) before its response is ready" % (mtype, "" if mid_value is None else " with message ID %d" % mid_value, copies)
+        ctx.ob("dispatch_message returns normally for every copy of a request", all(x[0] == "return" for x in o["outcomes"]), fi, fi.node, construct="dispatch_message: outcome for retransmitted requests",
+               detail="%s: %s" % (world, [x[0] for x in o["outcomes"]]))
+        acks = o["acks"]
+        if mtype == "CON":
+            # Necessary for "acknowledged exactly once under its message ID": after the receptions, with the handler
+            # still busy, the only thing left to happen is that the running empty-ACK timers fire; all ACKs under
+            # the request's message ID that the receptions and the timers produce together must be one.  (A stored
+            # reply that is sent again is the same acknowledgement; none is stored here, the handler has not answered.)
+            ctx.ob("a confirmable request is acknowledged exactly once under its message ID, however often it is received before the response is ready", len(acks) == 1, fi, fi.node,
+                   construct="acknowledgements of a retransmitted confirmable request",
+                   detail="%s: %d ACK(s) under the request's message ID (%d on reception, %d by the empty-ACK timers)" % (world, len(acks), len(o["acks_on_reception"]), len(acks) - len(o["acks_on_reception"])))
+            if o["acks_on_reception"]:
+                # acknowledged on reception: an opportunity left open would let send_message piggy-back the response
+                # on the same message ID once more
+                ctx.ob("an acknowledgement sent on reception of a request retires the request's open opportunity", o["left_open"] == 0, fi, fi.node,
+                       construct="acknowledgement on reception: open opportunity", detail="%s: %d opportunity(ies) left open" % (world, o["left_open"]))
+        else:
+            ctx.ob("a non-confirmable request is never acknowledged, however often it is received", not acks and o["left_open"] == 0, fi, fi.node, construct="acknowledgements of a retransmitted non-confirmable request",
+                   detail="%s: %d ACK(s) under the request's message ID, %d opportunity(ies) opened" % (world, len(acks), o["left_open"]))
+    ctx.floor("retransmission scenarios", n, 12)
+
+
 # representative addresses (as IPv6 literals: what the dual-stack socket reports): groups and non-groups of both
 # families, and both edges of ff00::/8 and of 224.0.0.0/4 behind the v4 mapping
 _ADDRESSES = (
@@ -1277,3 +1373,7 @@ R.seed("C10.k", F_PROXY, "        response.mtype = None\n        response.mid = 
 R.seed("C10.k", F_PROXY, "            cached_response.remote = None\n            cached_response.mtype = None\n", "            cached_response.remote = None\n", "response served from a pooled observation keeps the type the notification had upstream")
 R.seed("C10.k", F_PROXY, "        response.mtype = None\n        response.mid = None\n        response.remote = None\n", "        response = response.copy(mid=None, remote=None)\n", "copy() keeps the message type")
 R.seed("C10.d", F_MM, "        if message.mid is not None:\n            # if you can give any reason", "        if message.mid:\n            # if you can give any reason", "a message ID of 0 set by the application survives and is used instead of a fresh one")
+# ninth group: the same request received more than once
+R.seed("C10.l", F_MM, "                    self.log.info(\"Duplicate CON received, no response to send yet\")", "                    self._send_empty_ack(message.remote, message.mid, reason=\"still working on it\")", "a retransmitted CON request is acknowledged on reception while its opportunity stays open: a second ACK (empty or piggy-backed) follows under the same message ID")
+R.seed("C10.l", F_MM, "                self.log.info(\"Duplicate NON, ACK or RST received\")", "                self._send_empty_ack(message.remote, message.mid, reason=\"seen it\")", "a repeated NON request is acknowledged")
+R.seed("C10.l", F_MM, "            if self._deduplicate_message(message) is True:\n                return\n", "            if self._deduplicate_message(message) is True:\n                if message.mtype is CON:\n                    self._send_empty_ack(message.remote, message.mid, reason=\"duplicate\")\n                return\n", "duplicates acknowledged from dispatch_message itself, opportunity left open")
